@@ -7,7 +7,7 @@ _C19_IGNORE = _os.path.join(_os.path.dirname(_os.path.abspath(__file__)), 'engin
 # std:: / rapidcheck types compatible with their prebuilt libraries
 target('c19_sdu', 'engines/comp/c19_sdu.cpp', inc=_C19_NRF_INC,
        cxxflags=['-fsanitize-address-field-padding=1', '-fsanitize-ignorelist=' + _C19_IGNORE],
-       quick=dict(cases=30000, size=120), thorough=dict(cases=2000000, size=200))
+       quick=dict(cases=80000, size=120), thorough=dict(cases=2000000, size=200, max_seconds=900))
 prop('C19', ['c19_sdu'], 'comp',
      rule='rapidcheck picks one of 18 instantiated ll_l2cap_sdu_buffer (MTU 23 specialisation, 24, 30, 65, 158, 247 x transmit/receive ring '
           'sizes x default / nRF encrypted layout, on top of the real ll_data_pdu_buffer), initial max_rx/max_tx sizes and a history of: '
